@@ -632,7 +632,11 @@ def _vortex_mesh(rng, nx, ny, sym):
     inp = OrderedDict()
     if ground:
         inp["alpha"] = np.array([np.radians(rng.uniform(-10, 10))]); inp["height_agl"] = np.array([rng.uniform(2, 40)])
-    inp[s["name"] + "_def_mesh"] = s["mesh"] + rng.normal(size=s["mesh"].shape) * 0.01 * np.array([1, 0, 1])
+    dm = s["mesh"] + rng.normal(size=s["mesh"].shape) * 0.01 * np.array([1, 0, 1])
+    if rng.uniform() < 0.3:
+        # deformed / sheared mesh whose root is not exactly on the symmetry plane (the component must treat it as data)
+        dm = dm + np.array([0.0, rng.normal() * 0.3, 0.0])
+    inp[s["name"] + "_def_mesh"] = dm
     consts = [] if ground else [0.0, 0.0]
     return dict(factory=lambda: VortexMesh(surfaces=ss), ints=_vlm_ints(ss), consts=consts, inputs=inp,
                 outputs=[s["name"] + "_vortex_mesh"], branch="ground" if ground else "free", jtol=1e-6)
@@ -706,7 +710,7 @@ def _pg_scale_from(rng, nx, ny, sym):
     from openaerostruct.aerodynamics.pg_scale import ScaleFromPrandtlGlauert
     ss = _vlm_surfs(rng, nx, ny, sym, ns=1)
     s = ss[0]; m = s["mesh"]; N = (m.shape[0] - 1) * (m.shape[1] - 1)
-    inp = OrderedDict(Mach_number=np.array([rng.uniform(0, 0.94)]))
+    inp = OrderedDict(Mach_number=np.array([rng.choice([rng.uniform(0, 0.9), rng.uniform(0.9, 0.949)])]))
     inp[s["name"] + "_sec_forces_pg"] = rng.normal(size=(m.shape[0] - 1, m.shape[1] - 1, 3)) * 1e3
     return dict(factory=lambda: ScaleFromPrandtlGlauert(surfaces=ss), ints=[N, 2], consts=[], inputs=inp,
                 outputs=[s["name"] + "_sec_forces_w_frame"])
